@@ -274,7 +274,9 @@ def _errcls_names(f, name):
     res = []
     for v, st, how in local_assigns(f.node, name):
         if isinstance(v, ast.IfExp):
-            res += [dotted(v.body), dotted(v.orelse)]
+            res += [dotted(v.body.func if isinstance(v.body, ast.Call) else v.body), dotted(v.orelse.func if isinstance(v.orelse, ast.Call) else v.orelse)]
+        elif isinstance(v, ast.Call):
+            res.append(dotted(v.func))      # `problem = RangeError(...)` ... `raise problem`
         elif v is not None:
             res.append(dotted(v))
     return res
@@ -286,6 +288,12 @@ def _is_badvalue(m, f, d):
     r = m.resolve_name(f.module, d)
     if r and m.is_subclass(r, 'frappy.errors.BadValueError'):
         return True
+    fac = m.functions.get(r or f'{f.module.name}.{d}')
+    if fac is not None and fac.cls is None:
+        # an error factory: a module level function that hands back a bad-value error object on every path
+        rets = [x.value for x in body_walk(fac.node) if isinstance(x, ast.Return)]
+        if rets and all(isinstance(v, ast.Call) and _is_badvalue(m, fac, dotted(v.func)) for v in rets):
+            return True
     names = _errcls_names(f, d)
     return bool(names) and all(n and m.is_subclass(m.resolve_name(f.module, n) or n, 'frappy.errors.BadValueError') for n in names)
 
@@ -799,6 +807,14 @@ def declared_limits_enforced(ctx):
                                 d = dotted(a.exc.func if isinstance(a.exc, ast.Call) else a.exc)
                                 if d in ('RangeError', 'WrongTypeError') or _is_badvalue(m, ma.f, d):
                                     found = True
+            if not found:
+                # limits read by a computed name (`getattr(self, propname)` driven by a table of rules): which limit a comparison
+                # is about is not visible to this rule
+                dyn = [c for meth in ('__call__', 'validate', 'check_type') if res.get(meth) is not None for c in calls_in(res[meth].f.node)
+                       if dotted(c.func) == 'getattr' and len(c.args) >= 2 and src(c.args[0]) == 'self' and not isinstance(c.args[1], ast.Constant)]
+                if dyn:
+                    ctx.undecided(f'{ci.qualname}:limit {prop} enforced', dyn[0], f'`{src(dyn[0])}`: the limits are read by a computed attribute name', ma.f if ma else None)
+                    continue
             ctx.check(found, f'{ci.qualname}:limit {prop} enforced', ci.node, f'self.{prop} is compared and a refusal is reachable',
                       f'the declared limit `{prop}` is never compared on the validation path (__call__/validate/check_type): values outside the '
                       'described limit are accepted')
@@ -1350,11 +1366,7 @@ DISCRETE = {'minlen', 'maxlen', 'minchars', 'maxchars', 'minbytes', 'maxbytes'}
 
 def _side_never_completes(cfg, tid, label):
     """no normal exit of the function is reachable from the `label` side of test tid without raising"""
-    succ = [b for b, lab in cfg.succ[tid] if lab == label]
-    if not succ:
-        return False
-    r = set(succ) | cfg.reach(succ, exc=False)
-    return cfg.exit not in r
+    return side_never_completes(cfg, tid, label)
 
 
 def _limit_comparisons(test, props):
@@ -1457,6 +1469,38 @@ def refusing_side_of_every_limit_test_raises(ctx):
                                   '(or one element beyond it accepted)', ma.f)
 
 
+@rule('C01.R11b', min_instances=1)
+def range_membership_has_inclusive_bounds(ctx):
+    """a declared length limit tested as `size in range(lo, hi)`: range() excludes its stop, the declared limits are inclusive -
+    lo is the lower limit itself and hi the upper limit plus one"""
+    m = ctx.m
+    n = 0
+    for q, fi in sorted(m.functions.items()):
+        if fi.module.name != DT or fi.cls is None:
+            continue
+        for c in [x for x in body_walk(fi.node) if isinstance(x, ast.Compare) and len(x.ops) == 1 and isinstance(x.ops[0], (ast.In, ast.NotIn))
+                  and isinstance(x.comparators[0], ast.Call) and dotted(x.comparators[0].func) == 'range' and len(x.comparators[0].args) == 2]:
+            lo, hi = (resolved(a, fi.node) for a in c.comparators[0].args)
+            lims = [x for x in ast.walk(c.comparators[0]) if isinstance(x, ast.Attribute) and x.attr in DISCRETE and dotted(x.value) == 'self']
+            if not lims:
+                continue
+            n += 1
+            ctx.analysed(fi)
+            lo_ok = isinstance(lo, ast.Attribute) and lo.attr in LOWER
+            hi_ok = isinstance(hi, ast.BinOp) and isinstance(hi.op, ast.Add) and \
+                ((isinstance(hi.left, ast.Attribute) and hi.left.attr in UPPER and isinstance(hi.right, ast.Constant) and hi.right.value == 1) or
+                 (isinstance(hi.right, ast.Attribute) and hi.right.attr in UPPER and isinstance(hi.left, ast.Constant) and hi.left.value == 1))
+            key = f'{fi.qualname}:range() test covers the inclusive limits'
+            if isinstance(hi, ast.Attribute) and hi.attr in UPPER:
+                ctx.bad(key, c, f'`{src(c)}`: range() excludes its stop - a value of exactly the declared `{hi.attr}` is refused although the description allows it', fi)
+            elif lo_ok and hi_ok:
+                ctx.ok(key, c, 'range(lower, upper + 1)', fi)
+            else:
+                ctx.undecided(key, c, f'bounds `{src(lo)}`, `{src(hi)}` not recognised', fi)
+    if not n:
+        ctx.ok('no range() membership test on a declared limit', None, 'the limits are compared directly (C01.R11)')
+
+
 @rule('C01.R12', min_instances=12)
 def validation_never_falls_off_the_end(ctx):
     """__call__ / validate / import_value return the validated value on every normal exit: no path reaches the end of the
@@ -1502,7 +1546,13 @@ def structural_refusals(ctx):
             for atom, tv in facts_on_side(t.ast, truth):
                 exprs = [o for o in origins(atom, f.node)] if isinstance(atom, ast.Name) else [atom]
                 for e in exprs:
-                    for l, op, r in compare_ops(resolved(e, f.node)):
+                    re_ = resolved(e, f.node)
+                    if isinstance(re_, ast.BinOp) and isinstance(re_.op, ast.Sub) and {src(re_.left), src(re_.right)} == want and tv:
+                        # `surplus = len(value) - len(self.members)` ... `if surplus:` - truthy means unequal
+                        found = True
+                        ctx.check(_side_never_completes(cfg, t.id, label), f'{f.qualname}:wrong arity is refused', t.ast,
+                                  'the unequal side raises', f'`{src(t.ast)}`: a tuple with the wrong number of elements passes check_type (zip() then truncates silently)', f)
+                    for l, op, r in compare_ops(re_):
                         if op in ('==', '!=') and {l, r} == want and (op == '==') != tv:
                             # on this side the lengths differ
                             found = True
@@ -1570,6 +1620,13 @@ def structural_refusals(ctx):
             refuses = h is not None and contains_raise(h.body)
         else:
             refuses = True
+            # the probe as part of a condition (`if self.isUTF8 or value.isascii():`): decided by walking the method with the two
+            # conditions fixed - ASCII-only type and non-ASCII text never completes, a UTF-8 type with non-ASCII text can
+            probe = src(c)
+            dead = cfg.exit not in reach_with_flags(cfg, [cfg.entry], env={'self.isUTF8': False, probe: False})
+            alive = cfg.exit in reach_with_flags(cfg, [cfg.entry], env={'self.isUTF8': True, probe: False})
+            if dead and alive:
+                right_side = True
         ctx.check(right_side and refuses, key, c, 'probed exactly when isUTF8 is false, the failure raises a bad-value error',
                   f'`{src(c)}`: ' + ('the ASCII probe does not run exactly on the `not self.isUTF8` side' if not right_side else
                                      'a failing probe does not end in a raise') + ': an ASCII-only type accepts non-ASCII text (or a UTF-8 type refuses it)', f)
